@@ -6,6 +6,76 @@ use crate::report::*;
 
 const SVM_ASSUMPTION: &str = "native mini-SVM reproduces loader serialisation, CPI privileges and post-instruction account rules; CPIs run the real spl-token / token-2022 processors; same sources as the SBF program but a native build (overflow-checks off, as in the release profile)";
 
+/// Directed scenario: a reward paid in one of the pool's own tokens (the pool then owns two accounts of that mint).
+/// Rewards are collected honestly and with the pool's swap vault named as reward vault (same mint, same authority):
+/// the latter must fail; if it is paid, the swap vault no longer covers the claims on it (C01 monitor).
+fn c01_reward_in_pool_token(seed: u64) -> Acc {
+    use crate::world::*;
+    let mut acc = Acc::default();
+    for variant in 0..4u64 {
+        let mut mon = C01::new(1);
+        let mut w = World::new(crate::rnd::rng(seed ^ variant));
+        let c = w.add_config(300);
+        let u = w.add_user();
+        let (m1, m2) = (w.add_spl_mint(6), w.add_spl_mint(6));
+        let Ok(p) = w.add_pool(c, m1, m2, 64, 3000, 1u128 << 64, variant & 1 == 0) else {
+            acc.count("harness_errors");
+            continue;
+        };
+        let mut run = |w: &mut World, ix: crate::ix::Ix, acc: &mut Acc| -> bool {
+            let o = w.exec(ix);
+            acc.evaluations += 1;
+            Monitor::after(&mut mon, w, &o, acc);
+            o.ok()
+        };
+        let mut ok = true;
+        w.ensure_tick_array(p, -128, false);
+        w.ensure_tick_array(p, 128, false);
+        let (ix, info) = w.open_position_ix(p, u, -128, 128, false);
+        ok &= run(&mut w, ix, &mut acc);
+        w.positions.push(info);
+        let i = w.positions.len() - 1;
+        let ix = w.modify_v2(i).increase_liquidity_v2(1_000_000_000, u64::MAX, u64::MAX, None);
+        ok &= run(&mut w, ix, &mut acc);
+        let pool = w.pools[p].clone();
+        let (mint, swap_vault) = if variant & 2 == 0 { (pool.mint_a, pool.vault_a) } else { (pool.mint_b, pool.vault_b) };
+        let (ix, rv) = w.init_reward_ix(p, 0, mint);
+        ok &= run(&mut w, ix, &mut acc);
+        w.set_token_balance(rv, 1_000_000_000_000);
+        w.pools[p].rewards.push((mint, rv));
+        let ix = w.set_emissions_ix(p, 0, 10u128 << 64);
+        ok &= run(&mut w, ix, &mut acc);
+        w.advance_clock(1000);
+        let ix = w.update_fees_ix(i);
+        ok &= run(&mut w, ix, &mut acc);
+        let ix = w.collect_reward_ix_ver(i, 0, false);
+        ok &= run(&mut w, ix, &mut acc);
+        if !ok {
+            acc.notes.push(format!("HARNESS-ERROR directed reward-in-pool-token scenario {variant} did not run"));
+            acc.count("harness_errors");
+            continue;
+        }
+        w.advance_clock(1000);
+        let ix = w.update_fees_ix(i);
+        run(&mut w, ix, &mut acc);
+        for v1 in [false, true] {
+            let ix = w.collect_reward_ix_ver(i, 0, v1).with_key("reward_vault", swap_vault);
+            let before = w.token_balance(&swap_vault);
+            let paid = run(&mut w, ix, &mut acc);
+            acc.count("rewards_requested_from_the_swap_vault");
+            if paid && w.token_balance(&swap_vault) < before {
+                acc.violation(
+                    format!("c01:reward_paid_from_swap_vault:{}", if v1 { "collect_reward" } else { "collect_reward_v2" }),
+                    format!("a reward in the pool's own token was paid out of the swap vault ({} -> {}), which backs liquidity and fee claims only", before, w.token_balance(&swap_vault)),
+                    serde_json::json!({"variant": variant}),
+                );
+            }
+        }
+        acc.count("directed_reward_in_pool_token_scenarios");
+    }
+    acc
+}
+
 pub fn c01(tier: Tier, seed: u64) -> i32 {
     let mut rep = Report::new("C01", tier, seed);
     rep.rule = "history workload H on plain SPL pools; after every successful instruction (every prefix) oracle A: vault >= protocol fees owed + sum over all Position accounts (bank scan) of (fee_owed + pending fees + exact floor amounts of withdrawing all liquidity at the current price), exact big-integer arithmetic; oracle B at checkpoints and at the end: on a clone of the bank, in random order, update-fees / remove all liquidity / collect fees for every position and collect protocol fees - every step must succeed; oracle C: a signer that only swaps never ends with >= of both tokens and > of one. distinct = (instruction, ticks crossed bucket)".into();
@@ -15,10 +85,13 @@ pub fn c01(tier: Tier, seed: u64) -> i32 {
     let acc = run_histories(
         seed,
         per_shard,
-        move |_r| HistCfg { ops: 130, pools: 3, lifecycle_ext: true, allow_adaptive: true, w_swap: 38, w_two_hop: 5, w_liq: 30, w_fees: 12, w_lifecycle: 9, w_clock: 2, w_setters: 3, w_trader: 6, seed_growth: true, ..Default::default() },
+        move |_r| HistCfg { ops: 130, pools: 3, lifecycle_ext: true, allow_adaptive: true, w_swap: 38, w_two_hop: 5, w_liq: 30, w_fees: 12, w_lifecycle: 9, w_clock: 2, w_setters: 3, w_trader: 6, w_reward: 3, seed_growth: true, ..Default::default() },
         move || vec![Box::new(C01::new(drain_every)) as Box<dyn Monitor>],
     );
+    let mut acc = acc;
+    acc.merge(c01_reward_in_pool_token(seed ^ 0xc01));
     rep.acc = acc;
+    rep.floor("directed_reward_in_pool_token_scenarios", 4);
     rep.floor("claim_checks_with_liquidity", 5000);
     rep.floor("drains", 500);
     rep.floor("drain_steps", 2000);
@@ -93,7 +166,7 @@ pub fn c12(tier: Tier, seed: u64) -> i32 {
     let acc = run_histories(
         seed,
         per_shard,
-        move |_r| HistCfg { ops: 130, spl_only: false, allow_transfer_fee: true, allow_adaptive: true, seed_growth: true, lifecycle_ext: true, w_swap: 28, w_liq: 46, w_fees: 6, w_lifecycle: 8, w_clock: 6, w_setters: 2, w_reward: 9, ..Default::default() },
+        move |_r| HistCfg { delegates: true, ops: 130, spl_only: false, allow_transfer_fee: true, allow_adaptive: true, seed_growth: true, lifecycle_ext: true, w_swap: 28, w_liq: 46, w_fees: 6, w_lifecycle: 8, w_clock: 6, w_setters: 2, w_reward: 9, ..Default::default() },
         || vec![Box::new(C12::default()) as Box<dyn Monitor>],
     );
     rep.acc = acc;
@@ -136,7 +209,7 @@ pub fn c10(tier: Tier, seed: u64) -> i32 {
     let acc = run_histories(
         seed,
         per_shard,
-        move |_r| HistCfg { ops: 120, spl_only: false, allow_adaptive: true, lifecycle_ext: true, w_swap: 60, w_liq: 26, w_fees: 3, w_lifecycle: 6, w_clock: 3, w_setters: 2, ..Default::default() },
+        move |_r| HistCfg { ops: 120, spl_only: false, allow_adaptive: true, lifecycle_ext: true, seed_growth: true, w_swap: 60, w_liq: 26, w_fees: 3, w_lifecycle: 6, w_clock: 3, w_setters: 2, w_reward: 3, ..Default::default() },
         || vec![Box::new(C10::default()) as Box<dyn Monitor>],
     );
     rep.acc = acc;
